@@ -7,6 +7,13 @@ ROOT = os.path.dirname(os.path.dirname(os.path.abspath(__file__)))
 ALL = ["C%02d" % i for i in range(1, 20)]
 
 CHECKS = {
+    "C14": {
+        "spec": "specs/Sections.tla + SectionsTrace.tla",
+        "text": "TLC enumerates scenarios (installed plugins, before/after constraints incl. names of absent plugins, required flags, digest results, configuration key sets), checks the eight formulas of C14 on Sections.tla for every call order the constraints allow, and emits each scenario; each is executed on the real load_section_plugins + load_configuration with recording digests (discovery order and section content incl. None/falsy varied by seed) and the observed call log and outcome are validated by TLC.",
+        "note": "<= 4 installed plugins, <= 2 absent names; entry points are injected by replacing the module-level get_entrypoints; acyclic constraint graphs only (the property's quantifier).",
+        "design": "5/C14, 4.5",
+        "technique": "TLA+ model checking (TLC) + TLC-enumerated scenarios executed on the real loader + trace validation",
+    },
     "C06": {
         "spec": "specs/Standardiser.tla + StandardiserTrace.tla",
         "text": "TLC checks the seven formulas of C06 exhaustively on Standardiser.tla for a family of parameter records over all histories of a half-unit grid; an edge cover of the TLC-emitted state graph and seeded random histories are executed on the real Standardiser and every recorded trace is validated by TLC (each property formula on each observed state, each step against the specification's action).",
